@@ -271,6 +271,40 @@ def _model_line(lines):
     return 'OK ' + ('.' if not lines else '|'.join(lib.hx(x) for x in lines))
 
 
+def _disagrees(model, src):
+    """None, or a description of how implementation and model differ on src (either chunking)"""
+    for chunks in ([src], luagen.split_lines(src)):
+        o = echo_impl(chunks)
+        exp = ('ERR ' + o['err']) if 'err' in o else _model_line(o['lines'])
+        a = lib.run_driver(model, ['echo ' + LC.enc_chunks(chunks)])[0]
+        if a != exp:
+            return 'implementation %s, model %s' % (exp[:120], a[:120])
+    return None
+
+
+def shrink_disagreement(model, src):
+    cur = src
+    n = 2
+    rounds = 0
+    while len(cur) > 1 and rounds < 60:
+        rounds += 1
+        size = max(1, len(cur) // n)
+        hit = None
+        for i in range(0, len(cur), size):
+            c = cur[:i] + cur[i + size:]
+            if c and _disagrees(model, c):
+                hit = c
+                break
+        if hit is not None:
+            cur = hit
+            n = max(n - 1, 2)
+        else:
+            if size == 1:
+                break
+            n = min(len(cur), n * 2)
+    return cur
+
+
 def run_cases(cases, ctx):
     model, mon = ctx.get('model_exe'), ctx.get('monitor_exe')
     disagreements, violations = [], []
@@ -327,6 +361,17 @@ def run_cases(cases, ctx):
             for sig, r in _eval_rows(mon, rows):
                 if sig is not None:
                     violations.append((sig, r['src']))
+    if model:
+        done = 0
+        for d in disagreements:
+            srcs = d.get('case', {}).get('srcs') or []
+            if not srcs or done >= 3 or 'from_lines' in d.get('difference', ''):
+                continue
+            small = shrink_disagreement(model, bytes.fromhex(srcs[0]))
+            d['case'] = {'kind': 'corpus', 'srcs': [small.hex()]}
+            d['summary'] = {'shrunk_source': small.hex(), 'shrunk_source_repr': repr(small), 'original': d.get('summary')}
+            d['difference'] = 'on %r: %s' % (small, _disagrees(model, small))
+            done += 1
     by_sig = {}
     for sig, src in violations:
         if sig not in by_sig or len(src) < len(by_sig[sig]):
